@@ -1068,8 +1068,48 @@ def gen_decl(r, attr, kind=None):
     hint = gen_hint(r, kind, empty_seq or literal_int)
     return {"attr": attr, "kind": list(kind), "default": default, "hint": hint,
             "form": r.randrange(5), "flavor": r.randrange(2), "q": r.choice([0, 0, 0, 1, 2]),
-            "subtable": r.choice([None, None, None, "cfg", "s/t", "", "x"]),
+            "subtable": gen_subtable(r),
             "wd": r.choice([True, True, False, None])}
+
+
+# subtable strings: the documented key is plain concatenation  <owner table> + "/" + subtable + "/" + name,
+# WHATEVER characters the subtable contains -- it is not a filesystem path: a leading slash does not make it
+# absolute, a trailing / doubled slash is not collapsed, "." and ".." are not resolved
+SUBTABLES_PLAIN = ["cfg", "s/t", "x", "cfg/inner"]
+SUBTABLES_STRUCTURED = ["/pid", "limits/", "/abs/", "a//b", ".", "..", "cfg/../x", "./cfg", "/", "//", "s/t/", "/s/t",
+                        "../cfg", "x/.", " ", "a b"]
+
+
+def gen_subtable(r):
+    k = r.random()
+    if k < 0.45:
+        return None
+    if k < 0.52:
+        return ""
+    if k < 0.75:
+        return r.choice(SUBTABLES_PLAIN)
+    return r.choice(SUBTABLES_STRUCTURED)
+
+
+def subtable_shape(s):
+    if s is None:
+        return "none"
+    if s == "":
+        return "empty"
+    shape = []
+    if s.startswith("/"):
+        shape.append("leading slash")
+    if s.endswith("/") and len(s) > 1:
+        shape.append("trailing slash")
+    if "//" in s:
+        shape.append("doubled slash")
+    if any(c in (".", "..") for c in s.split("/")):
+        shape.append("dot component")
+    if " " in s:
+        shape.append("blank")
+    if not shape:
+        shape.append("nested" if "/" in s else "plain")
+    return "+".join(shape)
 
 
 PLAIN_POOL = [["int", 3], ["float", 96], ["str", "plain"], ["bool", True], ["int", 0]]
@@ -1242,20 +1282,45 @@ def gen_case(r, tag):
     # unit test; absent: all of them up front, the way MagicRobot does it)
     lazy = ninst >= 2 and r.random() < (0.7 if smc is not None else 0.4) and not any("obj" in d for ds in classes for d in ds)
 
+    def gen_name():
+        # names handed to setup_tunables are plain strings too (MODE_NAME of an autonomous mode, the cname of a
+        # unit test): 25% carry slashes / dots -- they go into the key as they are
+        nm = r.choice(NAME_POOL)
+        if r.random() < 0.75:
+            return "%s%s" % (nm, tag)
+        return r.choice(["%s/in", "/%s", "%s/", "a//%s", "./%s", "%s/..", "..%s", "%s.", "%s/in/", "Two Steps/%s"]) % tag
+
     def gen_owner():
         k = r.random()
-        nm = r.choice(NAME_POOL)
         if k < 0.4:
-            return ("components", "%s%s" % (nm, tag))
+            return ("components", gen_name())
         if k < 0.65:
-            return ("autonomous", "%s%s" % (nm, tag))
+            return ("autonomous", gen_name())
         if k < 0.85:
             return (None, "robot")
         if k < 0.93:
-            return (None, "%s%s" % (nm, tag))
-        return ("pfx%s" % tag, nm)
+            return (None, gen_name())
+        return ("pfx%s" % tag, r.choice(NAME_POOL + ["a/b", "x/", "/x", ".."]))
 
     owner_cls = {}
+    # the classes as they are NOW (class attributes are assigned while the history runs)
+    cur = [{d["attr"]: d for d in classes[c]} for c in range(ncls)]
+    claimed = {}                                    # documented key -> type string
+
+    def claim(owner, c, decls=None):
+        """a topic has one type: with slashes in names and subtables two (owner, subtable) pairs can spell the
+        same key (name "n", subtable "in/x"  and  name "n/in", subtable "x") -- fine for one tunable type (the
+        owners then share the topic, as documented), a type conflict inside ntcore otherwise: not generated"""
+        ks = {}
+        for d in (cur[c].values() if decls is None else decls):
+            if not d["attr"].startswith("_"):
+                ks[doc_key(owner[0], owner[1], d["subtable"], d["attr"])] = (ARRAY_TS if d["kind"][1] else SCALAR_TS)[d["kind"][0]]
+        if len(ks) < sum(1 for d in (cur[c].values() if decls is None else decls) if not d["attr"].startswith("_")):
+            return False                            # two tunables of the class at one key
+        if any(claimed.get(k, t) != t for k, t in ks.items()):
+            return False
+        claimed.update(ks)
+        return True
 
     def fresh_owner(i):
         # a topic has one type: an owner path is only ever used by instances of one class
@@ -1264,7 +1329,8 @@ def gen_case(r, tag):
             o = gen_owner()
             if sms[insts[i]] is not None and tag not in "%s/%s" % o:
                 continue                            # (current_state .. carry no tag: the owner path must)
-            if owner_cls.setdefault(o, insts[i]) == insts[i]:
+            if owner_cls.get(o, insts[i]) == insts[i] and claim(o, insts[i]):
+                owner_cls[o] = insts[i]
                 return o
 
     owners = [fresh_owner(i) for i in range(ninst)]
@@ -1274,8 +1340,6 @@ def gen_case(r, tag):
     bound = {}                                      # i -> (prefix, cname)
     known_keys = []                                 # (key, ts, kind)
     can_be_falsy = [i for i in range(ninst) if tkinds[insts[i]] is not None]
-    # the classes as they are NOW (class attributes are assigned while the history runs)
-    cur = [{d["attr"]: d for d in classes[c]} for c in range(ncls)]
     ver = [dict() for _ in range(ncls)]             # attr -> how often the class attribute was assigned
     bver = {}                                       # i -> {attr: ver at its last setup}
     made = set() if lazy else set(range(ninst))
@@ -1428,6 +1492,8 @@ def gen_case(r, tag):
                 m = gen_assigned(r, "added%d_%s" % (nadded[0], tag), None)
             else:
                 m = {"attr": r.choice(pub)["attr"], "plain": r.choice(PLAIN_POOL)}
+            if not is_plain(m) and not all(claim(o, c, [m]) for o, oc in list(owner_cls.items()) if oc == c):
+                continue                            # (would put two types on one topic)
             ops.append(["clsset", c, m])
             ver[c][m["attr"]] = ver[c].get(m["attr"], 0) + 1
             if is_plain(m):
@@ -2157,7 +2223,7 @@ def describe_classes(case):
         if h is not None:
             out.append("[%s] %s" % (how, describe_hier(h, "Cls%d" % k, src)))
         else:
-            out.append("[%s] %s" % (how, "; ".join(describe_decl(d, src) for d in ds if "sm" not in d)))
+            out.append("[%s] %s" % (how, "; ".join(describe_member(d, src) for d in ds if "sm" not in d)))
     sd = shared_defs(case)
     return ("module level: %s || " % "; ".join(sd) if sd else "") + " | ".join(out)
 
@@ -2815,7 +2881,8 @@ def violation_of_case(mt, case, shrink=True):
     v["case"] = strip_case(c)
     v["observations"] = exec_case(mt, retag(c, fresh_tag()))
     if any(case_hier(c, k) is not None for k in range(len(c["classes"]))) or case_has_shared(c) \
-            or any(literal_is_int(d) for ds in c["classes"] for d in ds if "kind" in d) or is_env(c):
+            or any(literal_is_int(d) for ds in c["classes"] for d in ds if "kind" in d) or is_env(c) \
+            or any(d.get("subtable") for ds in c["classes"] for d in ds):
         v["what"] += "   [classes: %s]" % describe_classes(c)
     if is_env(c):
         v["what"] += "   [history: %s]" % describe_env(c)
@@ -3044,6 +3111,7 @@ def run(ctx):
                 ctx.count("%s:owner=%s" % (op[0], "ordinary" if tk is None else
                                            "%s/%s" % (tk, "falsy" if truth_is_falsy(tk, tstates[nop][op[1]]) else "truthy")))
             if op[0] == "setup":
+                ctx.count("owner-name=%s" % ("plain" if not any(ch in op[3] for ch in "/.") else subtable_shape(op[3])))
                 ctx.count("owner=%s" % (op[2] if op[2] in ("components", "autonomous") else
                                         "robot" if op[3] == "robot" else "prefix-None-other" if op[2] is None else "other-prefix"))
         for k, ds in enumerate(c["classes"]):
@@ -3080,7 +3148,7 @@ def run(ctx):
                     ctx.count("hint-spelling=none")
                 ctx.count("kind=%s%s" % (d["kind"][0], "[]" if d["kind"][1] else ""))
                 ctx.count("writeDefault=%s" % d["wd"])
-                ctx.count("subtable=%s" % ("none" if d["subtable"] is None else "empty" if d["subtable"] == "" else "yes"))
+                ctx.count("subtable=%s" % subtable_shape(d["subtable"]))
         binders = {}
         for k, ds in enumerate(c["classes"]):
             for d in ds:
@@ -3249,7 +3317,7 @@ def replay(ctx, obj):
             else:
                 print("Cls%d = type(...)%s: %s" % (k, "" if tk is None else " [%s; instances are created falsy]" % (
                     {"len": "defines __len__", "bool": "defines __bool__", "list": "subclass of list"}[tk]),
-                    "; ".join(describe_decl(d, 0) for d in ds)))
+                    "; ".join(describe_member(d, 0) for d in ds)))
         o = exec_case(mt, c)
         for op, ob in zip(c["ops"], o):
             print("  %-90s -> %s" % (describe_op(op)[:140], json.dumps(ob)[:120]))
